@@ -419,6 +419,10 @@ def access_text(form, name):
         return '$p.%s' % name        # dunder names: the lexer must refuse them (counted as denied)
     if form == 'method':
         return '$p.%s()' % name
+    if form == 'proj':
+        return '[$p].%s' % name      # the member projected out of a collection holding the object
+    if form == 'proj-host':
+        return '$ps.%s' % name
     return "$p['%s']" % name if (dunder or name in ('zz', '_')) else '$p[%s]' % name
 
 
@@ -427,8 +431,14 @@ def policy_check(mon, cfg, form, name, rec):
     if text is None:
         return
     p, settings = build_probe(cfg)
+    shown = form
+    if form in ('proj', 'proj-host'):
+        form = 'attr'
     want = model_access(settings, form, name)
-    out = mon.run(text, {'p': p})
+    out = mon.run(text, {'p': p, 'ps': [p]})
+    if shown != form and out[0] == 'value' and isinstance(out[1], (list, tuple)) and len(out[1]) == 1:
+        out = ('value', out[1][0])
+    form = shown
     rec.count('policy.cases')
     key = ('policy', tuple(sorted((k, str(v)) for k, v in cfg.items())), form, name)
     if out[0] == 'parse-error':
@@ -632,13 +642,19 @@ def _direct(spec, mon, rec):
     rec.sample({'kind': 'direct', 'texts': DIRECT_FORMS[:6]})
 
 
+def _with(ctx, **vars_):
+    for k, v in vars_.items():
+        ctx[k] = v
+    return ctx
+
+
 def _policy(spec, mon, rec):
     idx = -1
     for cfg in policy_cases():
         idx += 1
         if idx % spec['parts'] != spec['part']:
             continue
-        for form in ('attr', 'method', 'index'):
+        for form in ('attr', 'method', 'index', 'proj', 'proj-host'):
             for name in NAMES:
                 policy_check(mon, cfg, form, name, rec)
         # keys that are not names (positions, null, booleans, structures) never reach a yaqlized object's
@@ -661,6 +677,25 @@ def _policy(spec, mon, rec):
 
 
 def _policy_extras(mon, rec):
+    # a context created without the yaqlized library grants nothing of a yaqlized object
+    bare = yaql.create_context(yaqlized=False)
+    cfg0 = {'attributes': True, 'methods': True, 'indexer': True, 'wl': 'none', 'bl': 'none', 'rm': 'none'}
+    for text in ('$p.pub', '$p.meth()', '$p[pub]', '[$p].pub', '$ps.pub', '[$p].select($.pub)', '$ps.select($.meth())', '$p?.pub',
+                 '$ps.where($.pub = 1)', '[$p, $p].orderBy($.pub)'):
+        p, settings = build_probe(cfg0)
+        LOG.reset()
+        try:
+            out = ('value', mon.eng(text).evaluate(context=_with(bare.create_child_context(), p=p, ps=[p])))
+        except Exception as e:
+            out = ('exc', e)
+        touched = [n for n, s_ in LOG.attrs] + [k for k, s_ in LOG.items]
+        rec.count('policy.cases')
+        rec.count('policy.context_without_yaqlized_library')
+        rec.case(('policy-no-yaqlized-library', text), nontrivial=True)
+        if touched or out[0] == 'value':
+            rec.violation('yaqlized-policy:reached-without-the-yaqlized-library',
+                          '%s in a context created with yaqlized=False: touches %r, outcome %r' % (text, touched, out),
+                          {'kind': 'policy-auto', 'auto': False})
     # auto-yaqlization of results and non-yaqlized children
     cfg = {'attributes': True, 'methods': True, 'indexer': True, 'wl': 'none', 'bl': 'none', 'rm': 'none'}
     for auto in (False, True):
